@@ -2,7 +2,7 @@
 # Runs every seeded change against its own property's quick check in a private copy of /repo and /verif
 # (so that /repo itself is never modified). usage: tools/matrix.sh [out-file] [ids...]
 out=${1:-/verif/work/seeded_matrix.txt}; shift
-T=/tmp/trial
+T=${TRIAL:-/tmp/trial}
 mkdir -p $T /verif/work
 if [ ! -d $T/repo ]; then git -C /repo worktree add --detach $T/repo HEAD >/dev/null 2>&1 || exit 2; else git -C $T/repo checkout -q --detach $(git -C /repo rev-parse HEAD) && git -C $T/repo checkout -- .; fi
 rsync -a --delete --exclude harness/target --exclude work --exclude .git --exclude evidence /verif/ $T/verif/
